@@ -45,6 +45,8 @@ type Scenario struct {
 	Resign     bool       `json:"resign,omitempty"`      // the signer uses its SIG record a second time (a template kept between messages); the second output is what travels
 	Poison     bool       `json:"poison,omitempty"`      // between packing the message and signing it, some other compressed message fails to pack half way (a name that is not fully qualified)
 	NearLimit  int        `json:"near_limit,omitempty"`  // > 0: the padding is adjusted until message + SIG record is this many octets short of 65535 (1 = fits exactly)
+	Siege      int        `json:"siege,omitempty"`       // before every delivery that is to verify, this many forgeries naming the same signer (one signature bit flipped each, in time, well-formed) are verified and refused
+	Twins      bool       `json:"twins,omitempty"`       // parallel: pairs 0 and 1 sign the very same message at the same instant under the same signer name and key tag - with different keys (a rollover); each key's device takes a scheduling point inside its Sign
 	Flaky      int        `json:"flaky,omitempty"`       // the key is a device that fails its first n requests (a token that lost its session, a throttled KMS) and works from then on
 	ThirdParty int        `json:"third_party,omitempty"` // the message that travels is signed by an independent implementation (own digest construction, standard library crypto): 1 ECDSA with the smaller s, 2 with the larger s, 3 as it comes
 	Msg        gen.Recipe `json:"msg"`
@@ -97,6 +99,10 @@ func Gen(seed uint64, tier string) any {
 	}
 	if core.Chance(r, 8) {
 		sc.Parallel = 2 + r.IntN(3)
+		sc.Twins = core.Chance(r, 50)
+	}
+	if core.Chance(r, 6) {
+		sc.Siege = core.Pick(r, 3, 8, 9, 20)
 	}
 	if core.Chance(r, 6) {
 		sc.NearLimit = core.Pick(r, 1, 2, 50, 130, 384, 385, 450)
@@ -722,6 +728,32 @@ func runIn(sc *Scenario, res *core.Result, verbose bool) {
 				vrr = s
 			}
 		}
+		if sc.Siege > 0 && !tampered && inWindow {
+			// someone else has been sending forgeries in this signer's name: each is refused, and none of that
+			// may cost the genuine message its verification
+			sg := reg["signature"]
+			for i := 0; i < sc.Siege && sg[1] > sg[0]; i++ {
+				f := append([]byte(nil), signed...)
+				f[sg[0]+i%(sg[1]-sg[0])] ^= 1 << uint(i%8)
+				frr := &dns.SIG{}
+				fm := new(dns.Msg)
+				if fm.Unpack(append([]byte(nil), f...)) == nil && len(fm.Extra) > 0 {
+					if s, ok := fm.Extra[len(fm.Extra)-1].(*dns.SIG); ok {
+						frr = s
+					}
+				}
+				ferr, fpan := verify(frr, kp.key, f)
+				res.Bump("fault.forgery_before_genuine_message")
+				if fpan != "" {
+					res.Fail("Q4", "verify-panic:"+firstLine(fpan), "SIG.Verify panicked on a forgery: %s", fpan)
+					return
+				}
+				if ferr == nil {
+					res.Fail("Q3", "tampered-verified:flip:signature", "a message with bit %d of a signature octet flipped verified", i%8)
+					return
+				}
+			}
+		}
 		verr, pan := verify(vrr, key, buf)
 		out := "ok"
 		if verr != nil {
@@ -741,6 +773,9 @@ func runIn(sc *Scenario, res *core.Result, verbose bool) {
 				sigName := "verify-failed"
 				if lay.H.AR >= 257 {
 					sigName = "verify-failed-arcount-ge-256"
+				}
+				if sc.Siege > 0 {
+					sigName = "verify-failed-after-forgeries"
 				}
 				res.Fail("Q2", sigName, "an untampered %s-signed message (%d octets, ARCOUNT %d) inside its validity window does not verify: %v", algName, len(buf), lay.H.AR, verr)
 				return
@@ -792,16 +827,36 @@ type pairTask struct {
 func (p *pairTask) RunEvent(time.Time) {
 	k := p.k
 	kp := keys[(p.sc.Key+2*p.idx)%12]
+	idOff := p.idx * 16
+	if p.sc.Twins && p.idx < 2 {
+		// two keys at one name (a rollover): pair 1 signs what pair 0 signs, with the other key of the same
+		// algorithm, published under the same owner; the SIG fields of the two are the same to the last octet
+		first := keys[p.sc.Key%12]
+		kp, idOff = first, 0
+		if p.idx == 1 {
+			o := keys[(p.sc.Key%12)^1]
+			nk := dns.Copy(o.key).(*dns.KEY)
+			nk.Hdr.Name = first.key.Hdr.Name
+			kp = keyPair{key: nk, priv: o.priv}
+		}
+	}
 	for round := 0; round < 2; round++ {
 		rc := p.sc.Msg
-		rc.ID += uint16(p.idx*16 + round)
+		rc.ID += uint16(idOff + round)
 		m := rc.Build()
 		now := uint32(time.Now().Unix())
 		sig := &dns.SIG{}
 		sig.Algorithm, sig.KeyTag, sig.SignerName = kp.key.Algorithm, kp.key.KeyTag(), kp.key.Hdr.Name
+		if p.sc.Twins && p.idx < 2 {
+			sig.KeyTag = keys[p.sc.Key%12].key.KeyTag() // (the tag is a hint, not an identity: two keys may share one)
+		}
 		sig.Inception, sig.Expiration = now-300, now+300
 		k.Yield("pair.sign", p.idx)
-		signed, err := sig.Sign(kp.priv, m)
+		var dev crypto.Signer = kp.priv
+		if p.sc.Twins {
+			dev = &yieldSigner{Signer: kp.priv, k: k, idx: p.idx}
+		}
+		signed, err := sig.Sign(dev, m)
 		k.Yield("pair.verify", p.idx)
 		var verr error
 		pan := ""
@@ -892,6 +947,19 @@ func runParallel(sc *Scenario, res *core.Result, verbose bool) {
 	}
 	res.Nontrivial = true
 	res.Class = "parallel/n=" + strconv.Itoa(sc.Parallel) + "/" + dns.AlgorithmToString[keys[sc.Key%len(keys)].key.Algorithm]
+}
+
+// yieldSigner is a key behind a device that takes a while: a scheduling point inside Sign.
+type yieldSigner struct {
+	crypto.Signer
+	k   *kernel.K
+	idx int
+}
+
+//go:norace
+func (y *yieldSigner) Sign(rand io.Reader, digest []byte, opts crypto.SignerOpts) ([]byte, error) {
+	y.k.Yield("pair.device", y.idx)
+	return y.Signer.Sign(rand, digest, opts)
 }
 
 // flakySigner is a key held by a device that refuses its first requests and serves the later ones.
